@@ -423,7 +423,7 @@ def _bad_multisection(field, too_long=False, with_bpanels=False):
             "k_lam": 0.05, "c_max_t": 0.303, "with_viscous": False, "with_wave": False, "groundplane": False,
         }
         if with_bpanels:
-            surface["bpanels"] = [4, 4]  # the mesh generator prefers bpanels over ny when both are given
+            surface["bpanels"] = np.array([4, 4])  # the mesh generator prefers bpanels (an array) over ny when both are given
         if field == "meshes":
             surface["meshes"] = [np.zeros((2, 3, 3))]
         elif too_long:
@@ -749,6 +749,10 @@ def _gen(seed, tier, opts):
                 if tenants[tid]["ops"][cursors[tid]]["op"] == "drop":
                     dropped += 1
                 cursors[tid] += 1
+    # epilogue: whatever the tenants did to process-wide state (warning filters, registries, module-level tables),
+    # at the end of every program the cheap rejection and warning rows must still behave
+    for name in ("unknown_surface_dict_key", "unknown_mesh_dict_key", "even_num_y", "unknown_wing_type"):
+        script.append(["bad", name])
     case = {
         "property": PROP, "seed": seed, "tenants": tenants, "script": script, "share": share_level,
         "env_rerun": bool(rng.random() < (0.25 if tier == "quick" else 0.5)),
